@@ -559,7 +559,12 @@ class Exec:
             elif "downcast" in e:
                 cur = ("variant", e.get("name"), cur)
             elif "index" in e:
-                cur = ("index", cur, st.env.get(e["index"], ("unk", "idx", fresh())))
+                ix = st.env.get(e["index"], ("unk", "idx", fresh()))
+                if isinstance(cur, tuple) and cur[0] == "agg" and cur[1] == "array" and isinstance(ix, tuple) and ix[0] == "c" \
+                        and isinstance(ix[1], int) and 0 <= ix[1] < len(cur[3]):
+                    cur = cur[3][ix[1]]
+                else:
+                    cur = ("index", cur, ix)
             elif "const_index" in e:
                 cur = ("index", cur, ("c", e["const_index"], "usize"))
             else:
@@ -605,9 +610,55 @@ class Exec:
                 pc = self.prog.consts.get(c["uneval"])
                 if pc is not None and "int" in pc:
                     return ("c", int(pc["int"]), c["ty"])
+                if pc is not None and "ints" in pc:
+                    # a small lookup table
+                    return ("agg", "array", None, tuple(("c", int(x), pc.get("elem_ty", "int")) for x in pc["ints"]), None, ())
+                v = self._generic_const(st, c)
+                if v is not None:
+                    return v
                 return ("c", c["display"], c["ty"])
             return ("c", c["display"], c["ty"])
         return ("unk", "operand", fresh())
+
+    def _generic_const(self, st, c):
+        """an associated const of a generic type (`Len::<N>::AS_COUNT`) cannot be evaluated before monomorphisation;
+        its initializer is a body like any other: read it with the generic arguments of the use bound.  Only
+        initializers with exactly one returning path and no events of their own (pure arithmetic/casts) are read."""
+        cb = self.prog.bodies.get(c["uneval"])
+        if cb is None or cb.kind != "const" or c.get("promoted"):
+            return None
+        env = {}
+        gens = [g for g in sorted(cb.j.get("generics", []), key=lambda g: g.get("index", 0)) if g.get("kind") != "lifetime"]
+        cargs = c.get("uneval_args") or []
+        if len(gens) != len(cargs):
+            return None
+        for g, a in zip(gens, cargs):
+            if g.get("kind") == "type" and a.get("k") == "ty":
+                env[("tparam", g["name"])] = subst_ty(a["ty"], st.env)
+            if g.get("kind") == "const" and a.get("k") == "const":
+                if "int" in a:
+                    env[("cparam", g["name"])] = ("c", int(a["int"]), "const")
+                elif ("cparam", a.get("display")) in st.env:
+                    env[("cparam", g["name"])] = st.env[("cparam", a.get("display"))]
+                elif a.get("display") != g["name"]:
+                    env[("cparam", g["name"])] = ("param_const", a.get("display"))
+        st2 = st.fork()
+        st2.env_stack = None
+        st2.env = env
+        n0 = len(st2.events)
+        rets = []
+        try:
+            for (st3, ex, ret) in self._run(cb, st2, 0, frozenset(), ("const", cb.name)):
+                if ex[0] == "return":
+                    rets.append((st3, ret))
+        except AnalysisError:
+            return None
+        if len(rets) != 1:
+            return None
+        st3, ret = rets[0]
+        if any(e.kind not in ("bb", "cond") for e in st3.events[n0:]):
+            return None
+        return ret
 
     def _rvalue(self, body, st, rv, bb):
         k = rv["k"]
